@@ -14,6 +14,7 @@ mod kxform;
 mod kalign;
 mod kline;
 mod kselect;
+mod ksearch;
 
 pub fn f(v: &Value) -> f64 {
     match v {
@@ -55,6 +56,8 @@ fn main() {
     } else if let Some(v) = kseries::run(&kernel, &a) {
         v
     } else if let Some(v) = kcurve::run(&kernel, &a) {
+        v
+    } else if let Some(v) = ksearch::run(&kernel, &a) {
         v
     } else if let Some(v) = kselect::run(&kernel, &a) {
         v
